@@ -3,6 +3,7 @@
 //
 //	vharness replay -script FILE -out FILE.impl
 //	vharness chain  -seed S -scripts N -blocks B -maxtx T -focus NAME -outdir DIR [-jobs J]
+//	vharness twin   -script FILE -out FILE.twin -db memdb|goleveldb [-crashseed S]
 //	vharness version
 package main
 
@@ -31,13 +32,15 @@ func main() {
 		replay(os.Args[2:])
 	case "chain":
 		chain(os.Args[2:])
+	case "twin":
+		twin(os.Args[2:])
 	default:
 		usage()
 	}
 }
 
 func usage() {
-	fmt.Fprintln(os.Stderr, "usage: vharness replay|chain|version [flags]")
+	fmt.Fprintln(os.Stderr, "usage: vharness replay|chain|twin|version [flags]")
 	os.Exit(2)
 }
 
@@ -86,6 +89,56 @@ func replay(args []string) {
 			return 1
 		}
 		if err := os.WriteFile(*out, []byte(strings.Join(trace, "\n")+"\n"), 0o644); err != nil {
+			fmt.Fprintf(os.Stderr, "vharness: %v\n", err)
+			return 1
+		}
+		return 0
+	}()
+	os.Exit(code)
+}
+
+// twin replays a script on one application with the chosen database backend and writes the
+// consensus-relevant lines (PROTOCOL.md §9).
+func twin(args []string) {
+	fs := flag.NewFlagSet("twin", flag.ExitOnError)
+	in := fs.String("script", "", "script file")
+	out := fs.String("out", "", "twin trace file to write")
+	db := fs.String("db", "memdb", "database backend: memdb|goleveldb")
+	seed := fs.Int64("crashseed", 0, "restart at pseudo-random points derived from this seed (0: never)")
+	fs.Parse(args)
+	if *in == "" || *out == "" {
+		die(2, "twin: -script and -out are required")
+	}
+	if *db != "memdb" && *db != "goleveldb" {
+		die(2, "twin: -db must be memdb or goleveldb")
+	}
+	f, err := os.Open(*in)
+	if err != nil {
+		die(1, "%v", err)
+	}
+	defer f.Close()
+	home, err := os.MkdirTemp("", "vharness-twin-")
+	if err != nil {
+		die(1, "%v", err)
+	}
+	code := func() int {
+		defer os.RemoveAll(home)
+		tw := real.NewTwin(home, *db, *seed)
+		sc := bufio.NewScanner(f)
+		sc.Buffer(make([]byte, 1<<20), 1<<26)
+		for ln := 1; sc.Scan(); ln++ {
+			if err := tw.Exec(sc.Text()); err != nil {
+				tw.Finish()
+				fmt.Fprintf(os.Stderr, "vharness: %s:%d: %v\n", *in, ln, err)
+				return 2
+			}
+		}
+		if err := sc.Err(); err != nil {
+			tw.Finish()
+			fmt.Fprintf(os.Stderr, "vharness: %v\n", err)
+			return 1
+		}
+		if err := os.WriteFile(*out, []byte(strings.Join(tw.Finish(), "\n")+"\n"), 0o644); err != nil {
 			fmt.Fprintf(os.Stderr, "vharness: %v\n", err)
 			return 1
 		}
